@@ -165,6 +165,16 @@ def run(ctx):
     for name in ROT:
         for th in special_angles():
             jobs.append((name, (th,)))
+    # the same (integral) angles handed over as other numeric types: Python int, numpy signed / unsigned integers, float64
+    for name in ROT:
+        for kk in (0, 1, 2, 3, 5, 6, 7, 12, 100, 200):
+            for ty in (int, np.int8, np.int16, np.int32, np.int64, np.uint8, np.uint16, np.uint32, np.uint64, np.float64):
+                if kk > 120 and ty is np.int8:
+                    continue
+                jobs.append((name, (ty(kk),)))
+        for kk in (-1, -3, -7):
+            for ty in (int, np.int8, np.int64, np.float64):
+                jobs.append((name, (ty(kk),)))
     jobs += [("CZ", ()), ("CZ_Heralded", ()), ("CCZ", ())]
     jobs += [("CNOT", (t,)) for t in (0, 1)] + [("CNOT_Heralded", (t,)) for t in (0, 1)]
     jobs += [("CCNOT", (t,)) for t in (0, 1, 2)]
